@@ -519,6 +519,7 @@ func (s *State) deleteMapEntry(idxE *ast.IndexExpression, index object.Object) o
 		// Nothing to delete, we're done
 		return object.FALSE
 	}
+	obj = object.Value(obj) // the map may be a variable of an enclosing scope.
 	// TODO: handle arrays too? though delete arr[idx] == arr[0:idx]+arr[idx+1:] so... no point
 	if obj.Type() != object.MAP {
 		return s.NewError("delete index on non map: " + id + " " + obj.Type().String())
